@@ -1,7 +1,7 @@
 (* C20 — property theorems.  Statements only: each is closed by [exact] of a lemma proved in
    coq/C20/, followed by Print Assumptions. *)
 From Coq Require Import List Bool PArith NArith ZArith FMapPositive.
-From Scenic Require Import C20.Network C20.NetworkProofs C20.Framing.
+From Scenic Require Import C20.Network C20.NetworkProofs C20.Framing C20.Pickle C20.MoreProofs.
 Import ListNotations.
 
 (* the certified linkage checker: if it accepts a network, every link is reciprocal (Reciprocal is the
@@ -117,3 +117,50 @@ Proof. vm_compute. repeat split; reflexivity. Qed.
 Example C20_example_frame :
   frame [([116%N], Some [49%N]); ([117%N], None)] = [0;75;116;0;86;49;0;75;117;0;86;0]%N.
 Proof. reflexivity. Qed.
+
+(* ---------------------------------------------------------------- round 2 *)
+(* lookup_consistent: on a network accepted by the hierarchy checker, at a point where every road answers the
+   containment queries like the union of its own lanes ([cover_at], re-evaluated by the kernel at every sampled
+   point), laneAt and roadAt agree: the reported lane belongs to the reported road, and roadAt reports nothing
+   exactly when laneAt reports nothing (tags of model_lookup: 2 = laneAt, 1 = roadAt). *)
+Theorem C20_lookup_consistent : forall nt tolpos ex wi,
+  hierarchy_ok nt = true -> cover_at nt (index (elems nt)) ex wi = true ->
+  match model_lookup nt (index (elems nt)) tolpos 2 ex wi None with
+  | Some l => exists le r, lookup nt l = Some le /\ kind_of le = KLane /\ road le = Some r /\
+                model_lookup nt (index (elems nt)) tolpos 1 ex wi None = Some r
+  | None => model_lookup nt (index (elems nt)) tolpos 1 ex wi None = None
+  end.
+Proof. exact lookup_consistent. Qed.
+Print Assumptions C20_lookup_consistent.
+
+(* reconnect_inverse: __getstate__ (single links -> _ElementPlaceholder(uid)) followed by Network.__setstate__
+   (placeholders of the objects it walks -> elements[uid]) restores every inter-element reference exactly when
+   the network passes [pickle_ok]: every object that holds a link is in Network.elements, or is a maneuver listed
+   by a lane / intersection of the network, and links only to keys of Network.elements.  Otherwise loading raises
+   KeyError or leaves a placeholder behind. *)
+Theorem C20_reconnect_inverse : forall nt,
+  setstate nt (index (elems nt)) (map getstate (elems nt)) = Some (map direct (elems nt)) <-> pickle_ok nt = true.
+Proof. exact reconnect_inverse. Qed.
+Print Assumptions C20_reconnect_inverse.
+
+Theorem C20_pickle_bad_nil : forall nt, pickle_bad nt = [] <-> pickle_ok nt = true.
+Proof. exact pickle_bad_nil. Qed.
+Print Assumptions C20_pickle_bad_nil.
+
+(* the maneuvers of a network accepted by both checkers are all reached by __setstate__ *)
+Theorem C20_maneuvers_in_scope : forall nt e,
+  links_ok nt = true -> hierarchy_ok nt = true -> In e (elems nt) -> kind_of e = KMan ->
+  in_scope nt (index (elems nt)) e = true.
+Proof. exact maneuvers_in_scope. Qed.
+Print Assumptions C20_maneuvers_in_scope.
+
+(* non-vacuity: the example network passes, the lane lookup is consistent at a point inside lane 5 / road 8;
+   a maneuver that no lane lists (uid 9) or a link to an unregistered element (uid 99) is not restored *)
+Example C20_example_round2 :
+  pickle_ok (ex_net (Some 7)) = true /\
+  cover_at (ex_net (Some 7)) (index (elems (ex_net (Some 7)))) [5; 8] [5; 6; 8] = true /\
+  model_lookup (ex_net (Some 7)) (index (elems (ex_net (Some 7)))) true 2 [5; 8] [5; 6; 8] None = Some 5 /\
+  model_lookup (ex_net (Some 7)) (index (elems (ex_net (Some 7)))) true 1 [5; 8] [5; 6; 8] None = Some 8 /\
+  pickle_bad (mkNet (ex_elems (Some 7) ++ [mkMan 9 1%N (Some 5) (Some 6) N_ N_]) [2;3;4;5;6;7;8] [8] [] [8] [7] [5;6] [] [] [] [] [4] [3;2] false 0) = [9] /\
+  pickle_bad (ex_net (Some 99)) = [5].
+Proof. vm_compute. repeat split; reflexivity. Qed.
